@@ -881,6 +881,18 @@ func (s *stakingSC) insertAfterLastJailed(
 			PreviousKey:  inWaitingListKey,
 			NextKey:      nextKey,
 		}
+		if len(nextKey) > 0 {
+			previousFirstElement, err := s.getWaitingListElement(nextKey)
+			if err != nil {
+				return err
+			}
+
+			previousFirstElement.PreviousKey = inWaitingListKey
+			err = s.saveWaitingListElement(nextKey, previousFirstElement)
+			if err != nil {
+				return err
+			}
+		}
 		return s.saveElementAndList(inWaitingListKey, elementInWaiting, waitingList)
 	}
 
